@@ -164,6 +164,39 @@ func exprD(v ssa.Value, d int, seen map[ssa.Value]bool) string {
 	case *ssa.IndexAddr:
 		return exprD(x.X, d-1, seen) + "[" + exprD(x.Index, d-1, seen) + "]"
 	case *ssa.Slice:
+		// variadic / literal argument slices: show the elements when rendering deep
+		if a, ok := x.X.(*ssa.Alloc); ok && d > 7 && x.Low == nil && x.High == nil {
+			if _, isArr := a.Type().Underlying().(*types.Pointer).Elem().Underlying().(*types.Array); isArr && a.Referrers() != nil {
+				elems := map[int64]string{}
+				max := int64(-1)
+				for _, r := range *a.Referrers() {
+					ia, ok := r.(*ssa.IndexAddr)
+					if !ok || ia.Referrers() == nil {
+						continue
+					}
+					ci, ok := ia.Index.(*ssa.Const)
+					if !ok {
+						continue
+					}
+					for _, rr := range *ia.Referrers() {
+						if st, ok := rr.(*ssa.Store); ok && st.Addr == ia {
+							i := ci.Int64()
+							elems[i] = exprD(st.Val, d-3, seen)
+							if i > max {
+								max = i
+							}
+						}
+					}
+				}
+				if max >= 0 {
+					var parts []string
+					for i := int64(0); i <= max; i++ {
+						parts = append(parts, elems[i])
+					}
+					return "[" + strings.Join(parts, ", ") + "]"
+				}
+			}
+		}
 		lo, hi := "", ""
 		if x.Low != nil {
 			lo = exprD(x.Low, d-1, seen)
